@@ -65,6 +65,7 @@ def streams(rng, tier):
         ("history", G.with_history(rng, [G.random_call(rng, "agg") for _ in range(250 if q else 2500)])),
         ("reduce", reduce_cases(rng, 150 if q else 1500)),
         ("malformed", G.malformed("agg")),
+        ("classes", G.class_calls(rng, 300 if q else 3000)),   # complex / Fraction / Decimal / float / timedelta values: oracle alone
     ]
 
 
@@ -74,6 +75,8 @@ observe = G.observe
 def emit(case, obs):
     if "fatal" in obs:
         return "CBad"
+    if case["op"] == "cls":
+        return "CSkip"                                       # decided by the oracle alone
     if case["op"] == "reduce":
         return G.emit_reduce(case, obs)
     return G.emit_call(case, obs, False)
@@ -82,6 +85,8 @@ def emit(case, obs):
 def oracle(case, obs):
     if "fatal" in obs:
         return f"setup-raises: {obs['fatal']}"
+    if case["op"] == "cls":
+        return obs["agg_verdict"]
     if case["op"] == "reduce":
         return oracle_reduce(case, obs)
     dom = G.domain(obs)
@@ -160,6 +165,8 @@ def oracle_reduce(case, obs):
 def nontrivial(case, obs):
     if "fatal" in obs:
         return False
+    if case["op"] == "cls":
+        return any(t[0] == "N" for t in case["vals"]) and len({json.dumps(k) for k in case["keys"]}) >= 2
     if case["op"] == "reduce":
         return any(t[0] == "N" for t in case["data"]) and any(t[0] != "N" for t in case["data"])
     if G.domain(obs) != "ok":
@@ -171,6 +178,8 @@ def nontrivial(case, obs):
 def describe(case, obs, stream):
     if "fatal" in obs:
         return [f"{stream}:fatal"]
+    if case["op"] == "cls":
+        return [f"classes:{case['cls']}"] + [f"classes:fn:{f}" for f in obs.get("ran", [])]
     if case["op"] == "reduce":
         return [f"{stream}:{case['kind']}", f"{stream}:len{len(case['data'])}"]
     dom = G.domain(obs)
@@ -186,6 +195,10 @@ def describe(case, obs, stream):
 
 
 def shrink(case):
+    if case["op"] == "cls":
+        for i in range(len(case["keys"])):
+            yield dict(case, keys=case["keys"][:i] + case["keys"][i + 1:], vals=case["vals"][:i] + case["vals"][i + 1:])
+        return
     if case["op"] == "reduce":
         d = case["data"]
         for i in range(len(d)):
